@@ -27,6 +27,7 @@ type c05Case struct {
 	Goal  string `json:"goal,omitempty"`
 	NilIO bool   `json:"nil_io,omitempty"`
 	Tag   string `json:"tag,omitempty"` // signature label for the arithmetic and stream matrices
+	Setup string `json:"setup,omitempty"`
 }
 
 var c05Tokens = []string{"a", "X", "_", "0", "1", ".", ",", "|", "(", ")", "[", "]", "{", "}", "-", "+", "\\", "'", "\"", "0'", "0x", ":-", " ", "\n", "%", "é", "1.0e", "/*", "`"}
@@ -272,6 +273,7 @@ func c05Work(w *h.W) {
 		}
 		c05Arith(w, run)
 		c05Streams(w, run)
+		c05DB(w, emit)
 	}
 	for _, pr := range c05Procedures() {
 		if pr.Name == "halt" {
@@ -452,6 +454,83 @@ func c05Streams(w *h.W, run func(c *c05Case, nilIO bool, size int)) {
 	}
 }
 
+// (e) goals that change the database under an open call: all conjunctions of <= L goals over a
+// dynamic predicate with three clauses (and a static one), driven to exhaustion by a final fail.
+var c05DBGoals = []string{
+	"q(X)", "q(_)", "retract(q(X))", "retract(q(_))", "retract(q(2))", "retractall(q(_))", "assertz(q(4))", "asserta(q(0))",
+	"abolish(q/1)", "once(q(X))", "clause(q(X), true)", "retract((q(X) :- B))", "s(X)", "assertz((q(X) :- s(X)))", "call(q, Y)",
+	"findall(Z, retract(q(Z)), _)", "\\+ q(_)", "(q(X) ; retract(q(_)))", "catch(retract(s(_)), _, true)", "consult_q",
+}
+
+func c05DB(w *h.W, emit func(c *c05Case, kind, detail string, size int)) {
+	setup := ":- dynamic(q/1). q(1). q(2). q(3). s(a). s(b). consult_q :- assertz(q(5)), retract(q(1))."
+	maxLen := w.Pick(3, 4)
+	for l := 1; l <= maxLen; l++ {
+		seqs(l, len(c05DBGoals), func(idx []int) bool {
+			if !w.Mine() {
+				return true
+			}
+			if w.Expired() {
+				return false
+			}
+			var gs []string
+			for _, i := range idx {
+				gs = append(gs, c05DBGoals[i])
+			}
+			for _, tail := range []string{", fail", ""} {
+				c := &c05Case{Kind: "goal", Goal: strings.Join(gs, ", ") + tail + " .", Tag: "database history", Setup: setup}
+				w.WAL(c)
+				w.GuardFor(c, 20*time.Second)
+				p := c05NewInterp(false)
+				kind, detail := "", ""
+				if err := p.Exec(setup); err != nil {
+					kind, detail = "the setup text failed", err.Error()
+				} else {
+					kind, detail = c05RunGoalAll(p, c)
+				}
+				w.Unguard()
+				w.Nontrivial(c.Goal)
+				if kind == "horizon" {
+					w.Eval(1)
+					w.Outcome("goal:history cancelled at the horizon")
+					continue
+				}
+				emit(c, kind, detail, l)
+			}
+			return true
+		})
+	}
+}
+
+// c05RunGoalAll is c05RunGoal but takes up to 20 answers, so that every open alternative is resumed.
+func c05RunGoalAll(p *prolog.Interpreter, c *c05Case) (kind string, detail string) {
+	defer func() {
+		if r := recover(); r != nil {
+			kind = "an unrecovered Go panic escaped Query/Next"
+			detail = fmt.Sprint(r)
+		}
+	}()
+	// asserting inside nested enumerations of the same predicate legitimately grows exponentially, so a
+	// history that is still running at this horizon is cancelled and counted, not judged
+	ctx, cancel := context.WithTimeout(context.Background(), 300*time.Millisecond)
+	defer cancel()
+	sols, err := p.QueryContext(ctx, c.Goal)
+	if err != nil {
+		return "the generated goal does not parse", err.Error()
+	}
+	for i := 0; i < 20 && sols.Next(); i++ {
+	}
+	err = sols.Err()
+	sols.Close()
+	if errors.Is(err, context.DeadlineExceeded) {
+		return "horizon", ""
+	}
+	if k := c05Judge(err, true); k != "" {
+		return k, err.Error()
+	}
+	return "", ""
+}
+
 func c05OnCrash(walCase json.RawMessage, stderr string, hung bool) *h.Violation {
 	var c c05Case
 	json.Unmarshal(walCase, &c)
@@ -481,6 +560,14 @@ func c05Replay(b []byte) (string, string, bool) {
 	var kind, detail string
 	if c.Kind == "text" {
 		kind, detail = c05RunText(&c)
+	} else if c.Setup != "" {
+		p := c05NewInterp(false)
+		if err := p.Exec(c.Setup); err != nil {
+			return "", err.Error(), false
+		}
+		if kind, detail = c05RunGoalAll(p, &c); kind == "horizon" {
+			kind = ""
+		}
 	} else {
 		kind, detail = c05RunGoal(c05NewInterp(c.NilIO), &c)
 	}
@@ -493,7 +580,7 @@ func c05Replay(b []byte) (string, string, bool) {
 func init() {
 	h.Register(&h.Check{
 		ID: "C05",
-		Rule: "(a) ALL strings of <= L symbols over a 29-symbol token alphabet taken from the lexer's switch (atoms, variables, digits, '.', ',', '|', every bracket, '-', '+', '\\\\', quote characters, 0', 0x, :-, layout, %, /*, a non-ASCII letter, a float prefix) each as is, with '.', and with ' .\\n', handed to Exec and to Query; all byte strings of length 1 and (quick: every 7th; thorough: all) of length 2; (b) EVERY registered procedure (read from the interpreter through a verif-tagged accessor, so the matrix follows the code) except halt/0,1 x all tuples of 14 (thorough: 22) argument shapes for arity <= 3 and of 8 (arity 4, 5) / 6 shapes above (unbound, atoms incl. empty, [], integers incl. extremes, float, compound, proper/partial/improper list, string, a stream, callable and non-callable terms), first answer plus one retry then Close, on an interpreter with real streams and (quick: every 5th tuple) on the documented prolog.New(nil, nil); (c) EVERY evaluable functor of eval's dispatch tables (read through a verif-tagged accessor) x a 25-value operand grid (unbound, atom, integers incl. 63/64/-64/extremes, floats incl. -0.0, largest and smallest, compound, string, lists, nested error) for both operands, unary ones also over every unary functor nested inside (thorough: every binary too), each under is/2, three comparisons and catch/3; (d) every procedure of arity 1..4 x 7 kinds of stream argument (closed input/output, open text/binary input/output, at end, closed alias) in every argument position x all tuples of 10 other shapes (quick, arity 4: 5). Distinct = text or goal.",
+		Rule: "(a) ALL strings of <= L symbols over a 29-symbol token alphabet taken from the lexer's switch (atoms, variables, digits, '.', ',', '|', every bracket, '-', '+', '\\\\', quote characters, 0', 0x, :-, layout, %, /*, a non-ASCII letter, a float prefix) each as is, with '.', and with ' .\\n', handed to Exec and to Query; all byte strings of length 1 and (quick: every 7th; thorough: all) of length 2; (b) EVERY registered procedure (read from the interpreter through a verif-tagged accessor, so the matrix follows the code) except halt/0,1 x all tuples of 14 (thorough: 22) argument shapes for arity <= 3 and of 8 (arity 4, 5) / 6 shapes above (unbound, atoms incl. empty, [], integers incl. extremes, float, compound, proper/partial/improper list, string, a stream, callable and non-callable terms), first answer plus one retry then Close, on an interpreter with real streams and (quick: every 5th tuple) on the documented prolog.New(nil, nil); (c) EVERY evaluable functor of eval's dispatch tables (read through a verif-tagged accessor) x a 25-value operand grid (unbound, atom, integers incl. 63/64/-64/extremes, floats incl. -0.0, largest and smallest, compound, string, lists, nested error) for both operands, unary ones also over every unary functor nested inside (thorough: every binary too), each under is/2, three comparisons and catch/3; (d) every procedure of arity 1..4 x 7 kinds of stream argument (closed input/output, open text/binary input/output, at end, closed alias) in every argument position x all tuples of 10 other shapes (quick, arity 4: 5); (e) database histories: all conjunctions of <= 3 (thorough: 4) goals from a 20-goal menu that calls, retracts, asserts, abolishes and enumerates a dynamic predicate with three clauses while calls of it are open, with and without a final fail, up to 20 answers. Distinct = text or goal.",
 		Explanation: "state = a fresh (or regularly renewed) real interpreter in an isolated worker process; transition = one Exec/Query call; oracle: the worker process survives (a fatal runtime error is attributed to the exact input through a write-ahead record, re-running the batch in fine mode), the call returns (per-case watchdog), an error raised by a predicate is error(Formal, _) with an ISO formal error term, and no returned error is the residue of a recovered Go panic",
 		Assumptions: []string{"workers run in an empty scratch directory with GOMAXPROCS=1 and a 256 MB goroutine stack limit so that unbounded recursion dies quickly", "a Go error returned for a text that does not parse is the API's way to report a syntax error and is accepted"},
 		Work:          c05Work,
